@@ -129,12 +129,17 @@ def qd_schedule(ctx):
             if fn.blocks[bb]['cleanup']:
                 continue
             name = t['func'].get('fn') or ''
-            if not name.startswith('alloc::collections::vec_deque::VecDeque::'):
-                continue
             if not t['args'] or t['args'][0]['k'] == 'const':
                 continue
             ty = clean_ty(t['args'][0]['pl']['ty'])
             if ty != '&mut alloc::collections::vec_deque::VecDeque<alloc::sync::Arc<desync::JobQueue>>':
+                continue
+            if name in ('core::mem::take', 'core::mem::replace', 'core::mem::swap'):
+                # the whole schedule taken out of its mutex: while it is out, a queue pushed by another thread lands in a list nobody reads, or
+                # the entries that were taken are invisible to every pool thread that looks
+                out.append(bad('QD-schedule', '%s|schedule.mem::%s' % (short(fn.name), name.split('::')[-1]), 'the schedule is taken out of its mutex wholesale (`mem::%s`)' % name.split('::')[-1], loc=fn.loc(bb), fn=fn.name))
+                continue
+            if not name.startswith('alloc::collections::vec_deque::VecDeque::'):
                 continue
             m = name.split('::')[-1]
             counts[m] += 1
